@@ -543,8 +543,7 @@ def correspond_client(res, n):
         outs = outs[:-1]
         cases = cases[:len(outs)]
     terms = [client_case_term(c, o[:-1]) for c, o in zip(cases, outs)]
-    codes, _ = core.coq_eval('C20c', CHEADER, core.chunks(terms, 100))
-    codes = dict(codes)
+    codes = dict(core.coq_eval('C20c', CHEADER, core.chunks(terms, 100))[0]) if terms else {}
     hist = {}
     nontrivial = set()
     late = []
